@@ -1269,10 +1269,15 @@ void BSSubIndexTriShape::notifyVerticesDelete(const std::vector<uint16_t>& vertI
 	size_t i = 0;
 	for (auto& segment : segmentation.segments) {
 		// Align sub segments
+		// Triangles owned by the segment itself come before those of its sub segments
+		uint32_t numOwnPrimitives = segment.numPrimitives;
+		for (auto& subSegment : segment.subSegments)
+			numOwnPrimitives -= subSegment.numPrimitives;
+
 		size_t j = 0;
 		for (auto& subSegment : segment.subSegments) {
 			if (j == 0)
-				subSegment.startIndex = segment.startIndex;
+				subSegment.startIndex = segment.startIndex + numOwnPrimitives * 3;
 
 			if (j + 1 >= segment.numSubSegments)
 				continue;
@@ -1548,7 +1553,8 @@ void BSDynamicTriShape::notifyVerticesDelete(const std::vector<uint16_t>& vertIn
 	BSTriShape::notifyVerticesDelete(vertIndices);
 
 	EraseVectorIndices(dynamicData, vertIndices);
-	dynamicDataSize = static_cast<uint32_t>(dynamicData.size());
+	// Size in bytes (16 per vertex), as in CalcDynamicData
+	dynamicDataSize = static_cast<uint32_t>(dynamicData.size()) * 16;
 }
 
 void BSDynamicTriShape::CalcDynamicData() {
